@@ -65,6 +65,33 @@ def movable(name="mot"):
 MOT = movable()
 ALPHABET["set"] = msg("set", MOT, 1)
 
+
+def movable_fallible(name="fmot"):
+    """a Movable whose set() either returns a status (reported, so that C13 can compare the plan's response with it) or raises a device
+    error (reported, so that C12 can follow it to the plan)"""
+    def set_(I_, o, a, k):
+        sc = CTX["scenario"]
+        c = sc.w.choose(["ok", "raise"], "device set outcome")
+        if c == "raise":
+            e = Obj(BUILTIN_CLASSES["ValueError"], {"args": ("device refuses the set point",), "__cause__": None}, label=sc.w.fresh("dev_error"))
+            sc.eng.event("dev-raise", o, e)
+            raise PyRaise(e)
+        _report("dev-set", o)
+        st = _status(I_)
+        sc.eng.event("dev-result", o, st)
+        return st
+
+    def stop(I_, o, a, k):
+        _report("dev-stop", o)
+        return None
+    return Opaque(name, {"token": "dev", "truth": True, "isinstance_default": False, "isinstance": {"Movable": True, "Stoppable": True},
+                         "hasattr": {"pause": False, "resume": False, "stop": True, "name": True}, "attrs": {"name": name, "parent": None},
+                         "methods": {"set": set_, "stop": stop}})
+
+
+FMOT = movable_fallible()
+ALPHABET["set_fallible"] = msg("set", FMOT, 1)
+
 CTX = {"scenario": None}
 
 
